@@ -428,7 +428,7 @@ theorem verneed_loop_spec {b : SecBuf} (hI : b.Inv) (e : Enc) (no : BitVec 32) (
     rw [hr] at hr'; cases hr'
     have hc : vr_loop_cond i no = false := by
       simp only [vr_loop_cond, BitVec.ult, decide_eq_false_iff_not]; omega
-    simp [Verneed.loop, hc, pure, Except.pure]
+    simp [Verneed.loop, VerTie.vr_i_incr_eq, hc, pure, Except.pure]
   | succ j ih =>
     intro i vn r fuel hr ho hi hf
     obtain ⟨f, rfl⟩ : ∃ f, fuel = f + 1 := ⟨fuel - 1, by omega⟩
@@ -455,7 +455,7 @@ theorem verneed_loop_spec {b : SecBuf} (hI : b.Inv) (e : Enc) (no : BitVec 32) (
       simp only [BitVec.toNat_add, h1, Nat.reducePow] at *
       omega
     have := ih (i + 1) (vn + r.next) r1 f hr1 ho hi1 (by omega)
-    simp only [Verneed.loop, hc, if_true, hstep, bind, Except.bind, this]
+    simp only [Verneed.loop, VerTie.vr_i_incr_eq, hc, if_true, hstep, bind, Except.bind, this]
 
 theorem decodeVerdef_fields {e : Enc} {bs : Bytes} {off : Nat} {r : Spec.Verdef}
     (h : Spec.decodeVerdef e bs off = some r) :
@@ -499,7 +499,7 @@ theorem verdef_loop_spec {b : SecBuf} (hI : b.Inv) (e : Enc) (no : BitVec 32) (o
     rw [hr] at hr'; cases hr'
     have hc : vd_loop_cond i no = false := by
       simp only [vd_loop_cond, BitVec.ult, decide_eq_false_iff_not]; omega
-    simp [Verdef.loop, hc, pure, Except.pure]
+    simp [Verdef.loop, VerTie.vd_i_incr_eq, hc, pure, Except.pure]
   | succ j ih =>
     intro i vd r fuel hr ho hi hf
     obtain ⟨f, rfl⟩ : ∃ f, fuel = f + 1 := ⟨fuel - 1, by omega⟩
@@ -526,7 +526,7 @@ theorem verdef_loop_spec {b : SecBuf} (hI : b.Inv) (e : Enc) (no : BitVec 32) (o
       simp only [BitVec.toNat_add, h1, Nat.reducePow] at *
       omega
     have := ih (i + 1) (vd + r.next) r1 f hr1 ho hi1 (by omega)
-    simp only [Verdef.loop, hc, if_true, hstep, bind, Except.bind, this]
+    simp only [Verdef.loop, VerTie.vd_i_incr_eq, hc, if_true, hstep, bind, Except.bind, this]
 
 end C14
 end ElfioVerif
